@@ -1,7 +1,9 @@
 """C20 - extra corpus: twins for the kinds of refactoring the path-term rules are robust against (helper extraction, named
 temporaries, call style and keyword arguments, flags vs else-branch vs early return, De-Morgan, loop vs comprehension,
 equivalent bit/arithmetic expressions, partial chains, precompiled patterns, mirrored tests) and mutants for every
-restructured rule, several of them applied on top of a refactored shape."""
+restructured rule, several of them applied on top of a refactored shape.  The last section pins the algebraic forms the
+rules recognise (normal forms, tiling lemmas, nibble forms, interval sets, regex parse tree): a recognised form, a
+located-but-wrong form next to it, and spellings outside the recognised forms, which must stay undecided (silent)."""
 
 from selftest.corpus import M, T
 
@@ -296,3 +298,33 @@ M("C20", "rsu-next-filtered-wrong-classifier", U, RSU_LOOP, RSU_NEXT.replace("if
 M("C20", "rsu-next-unfiltered", U, RSU_LOOP, RSU_NEXT.replace(" if is_stager(u)", ""), "C20.R4")
 T("C20", "twin-netbios-decoder-empty-shortcut", U, DEC_BODY, '    if not data:\n        return b""\n' + DEC_BODY)
 M("C20", "netbios-decoder-empty-shortcut-then-shift", U, DEC_BODY, '    if not data:\n        return b""\n' + DEC_BODY.replace("<< 4", "<< 5"), "C20.R6")
+
+# ============================================================================================================ algebraic forms
+# (the side conditions are decided by normal forms, interval sets, the abstract key domain and the regex parse tree - these
+# entries pin the recognised forms, a located-but-wrong form next to each, and spellings that must stay undecided)
+T("C20", "twin-xor-tiling-two-extra", U, "        key = key * ((size // len(key)) + 1)\n", "        key = key * (size // len(key) + 2)\n")
+T("C20", "twin-xor-shortcut-len-or-any", U, XOR_GUARD, "    if len(key) == 0 or not any(key):\n        return data\n")
+T("C20", "twin-xor-shortcut-count-undecided", U, XOR_GUARD, "    if key.count(0) == len(key):\n        return data\n")
+M("C20", "xor-cut-to-key-length", U, "    key = key[:size]\n", "    key = key[: len(key)]\n", "C20.R1")
+M("C20", "xor-elementwise-index-mod-data", U, XOR_BODY, XOR_GUARD + "    return bytes(data[i] ^ key[i] for i in range(len(data)))\n".replace("key[i]", "key[i % len(data)]"), "C20.R1")
+T("C20", "twin-xor-elementwise-index-mod", U, XOR_BODY, XOR_GUARD + "    return bytes(data[i] ^ key[i % len(key)] for i in range(len(data)))\n")
+T("C20", "twin-pack-seven-plus", U, "        size = (n.bit_length() + 7) // 8\n", "        size = (7 + n.bit_length()) // 8\n")
+M("C20", "pack-eight-plus", U, "        size = (n.bit_length() + 7) // 8\n", "        size = (n.bit_length() + 8) // 8\n", "C20.R2")
+T("C20", "twin-checksum-guard-mirrored-not", U, "    if len(text) < 4:\n", "    if not 4 <= len(text):\n")
+M("C20", "checksum-guard-gap", U, "    if len(text) < 4:\n        return 0\n", "    if len(text) < 4:\n        return 0\n    if len(text) == 6:\n        return 0\n", "C20.R3")
+T("C20", "twin-x64-split-class", U, 're.match("^/[A-Za-z0-9]{4}$", uri)', 're.fullmatch("/[A-Za-z0-9][0-9A-Za-z]{3}", uri)')
+T("C20", "twin-x64-ignorecase-ascii", U, 're.match("^/[A-Za-z0-9]{4}$", uri)', 're.match("^/[a-z0-9]{4}$", uri, re.IGNORECASE | re.ASCII)')
+M("C20", "x64-digit-class-unicode", U, "[A-Za-z0-9]{4}$", "[A-Za-z\\\\d]{4}$", "C20.R3")
+M("C20", "x64-multiline", U, 're.match("^/[A-Za-z0-9]{4}$", uri)', 're.match("^/[A-Za-z0-9]{4}$", uri, re.MULTILINE)', "C20.R3")
+M("C20", "x64-dot-position", U, "[A-Za-z0-9]{4}$", "[A-Za-z0-9]{3}.$", "C20.R3")
+T("C20", "twin-x64-alternation-merged-by-parser", U, 're.match("^/[A-Za-z0-9]{4}$", uri)', 're.match("^/(?:[A-Za-z]|[0-9]){4}$", uri)')
+T("C20", "twin-x64-nested-repeat-undecided", U, 're.match("^/[A-Za-z0-9]{4}$", uri)', 're.match("^/(?:[A-Za-z0-9]{2}){2}$", uri)')
+T("C20", "twin-rsu-range-from-one", U, "for _ in range(length))", "for _ in range(1, length + 1))")
+M("C20", "rsu-range-from-one-short", U, "for _ in range(length))", "for _ in range(1, length))", "C20.R4")
+T("C20", "twin-netbios-encoder-floor-div", U, "", "", edits=[(U, "        a = ((c & 0xF0) >> 4) + offset\n", "        a = offset + c // 16\n"), (U, "        b = (c & 0x0F) + offset\n", "        b = (15 & c) + offset\n")])
+M("C20", "netbios-encoder-mask-e0", U, "        a = ((c & 0xF0) >> 4) + offset\n", "        a = ((c & 0xE0) >> 4) + offset\n", "C20.R6")
+M("C20", "netbios-encoder-shift-3", U, "        a = ((c & 0xF0) >> 4) + offset\n", "        a = (c >> 3) + offset\n", "C20.R6")
+T("C20", "twin-netbios-decoder-expanded-polynomial", U, DEC_BODY, "    return bytes([16 * data[i] + data[i + 1] - 17 * offset for i in range(0, len(data), 2)])\n")
+M("C20", "netbios-decoder-expanded-polynomial-16", U, DEC_BODY, "    return bytes([16 * data[i] + data[i + 1] - 16 * offset for i in range(0, len(data), 2)])\n", "C20.R6")
+M("C20", "netbios-decoder-full-range", U, DEC_BODY, DEC_HALF.replace("range(len(data) // 2)", "range(len(data))"), "C20.R6")
+T("C20", "twin-netbios-decoder-shift-range", U, DEC_BODY, DEC_HALF.replace("range(len(data) // 2)", "range(len(data) >> 1)"))
